@@ -52,6 +52,7 @@ CONSTANTS
     StrictTypes,     \* TRUE: no weakly typed input
     UnsetIsError,    \* TRUE: a placeholder naming an unset variable / missing property is an error
     DiscardDefault,  \* "true": what the CLI reader puts in when discard_overflow is absent
+    StdinDefault,    \* TRUE: ... also when the configuration arrives on standard input (FALSE: only for files - wrong)
     ReflPoints       \* struct nodes found by reflection over the real config structs: seq of [v, p]
 
 IdxNames == {"#1", "#2", "#3", "#4", "#5"}
@@ -448,10 +449,24 @@ BaseEntries(V, base) ==
 
 ---------------------------------------------------------------------------
 (* the decoder model: Result(c, via) = [out |-> "ok" | "error", vals |-> canonical value of every leaf] *)
-Vias == {"cli", "decode"}
+\* THE INPUT CHANNELS OF THE CLI READER (cli.readConfig) and the file syntaxes viper accepts are a dimension of the cli path:
+\* "cli" = a file named on the command line, .yaml; the others: .yml, no extension (= yaml), .json, .toml, standard input
+\* (`pandora -`, yaml), no argument at all with ./load.yaml, ./load.json or ./config/load.yaml found in the search directories
+\* (a DIFFERENT configuration lies in the search directories that must not be used: ./config/load.yaml when ./load.* is the
+\* case, ./load.yaml when a file is named or standard input is read).  Outcome and every decoded value are the same through
+\* every channel - that is what Outcome / ValueOf say by not looking at the channel.
+CliVias == {"cli", "cli-yml", "cli-noext", "cli-json", "cli-toml", "cli-stdin", "cli-cwd", "cli-cwdjson", "cli-cwdconfig"}
+Vias == {"decode"} \cup CliVias
+IsCli(via) == via \in CliVias
+\* the cases whose cli run is repeated through the other channels (the driver samples them; kind none: always all of them)
+ChannelCase(c) == c.kind \in {"none", "absent", "nullval", "dropcomp", "nullcomp"}
+\* TOML has no null
+Expressible(c, via) == via = "cli-toml" => c.kind \notin {"nullval", "nullcomp"}
+ViasFor(c) == IF ChannelCase(c) THEN {vv \in Vias : Expressible(c, vv)} ELSE {"decode", "cli"}
 
 DocDefault(lf, via) == IF lf.p[Len(lf.p)] = "discard_overflow"
-                       THEN (IF via = "cli" THEN DiscardDefault ELSE "*")     \* the default is put in by the CLI reader
+                       \* the default is put in by the CLI reader - whatever channel the configuration arrives through
+                       THEN (IF IsCli(via) THEN (IF via = "cli-stdin" /\ ~StdinDefault THEN "false" ELSE DiscardDefault) ELSE "*")
                        ELSE lf.d
 
 \* stage 1 - placeholders (VariableInjectHook runs first in the hook chain)
@@ -507,7 +522,7 @@ Matches(got, want) == want = "*" \/ got = want
 VARIABLES cs, via, stage, err
 vars == <<cs, via, stage, err>>
 
-Init == cs \in AllCases /\ via \in Vias /\ stage = 0 /\ err = FALSE
+Init == cs \in AllCases /\ via \in ViasFor(cs) /\ stage = 0 /\ err = FALSE
 Advance == /\ stage < Len(Stages)
            /\ stage' = stage + 1
            /\ err' = (err \/ StageOut(cs, Stages[stage + 1]) = "error")
@@ -552,6 +567,6 @@ DefaultsKept == Done /\ ~err =>
                                 [] cs.kind = "emblist" /\ cs.i = j -> "[User-Agent: mid]|[X-Other: y]"
                                 [] OTHER -> lf.f)
            ELSE IF cs.base = "min" /\ \E q \in TheV.mwmin : IsPrefix(q, lf.p) THEN TRUE
-           ELSE IF lf.p[Len(lf.p)] = "discard_overflow" THEN (via = "cli" => v = "true")
+           ELSE IF lf.p[Len(lf.p)] = "discard_overflow" THEN (IsCli(via) => v = "true")    \* every input channel
            ELSE v = lf.d
 =============================================================================
